@@ -33,6 +33,7 @@ def build(u):
     u.emit(TK, 'struct TokenLocation')
     u.emit(TK, 'struct Tokens', pub_fields=True)
     u.emit(TK, 'struct TokensBuffer', pub_fields=True)
+    u.include('spec/ltok_ok_spec.rs', kind='spec')
     u.include('spec/u_lexd_spec.rs', kind='spec')
     u.emit(TK, 'impl ValueTypeAndPayloadId', only=['new'], rules=[rules.r20_param_patterns])
     u.emit(TK, 'impl TokenLocation')
